@@ -3,9 +3,9 @@
 # Verifies the sub-agent's claim (demo + full suite in a scratch worktree) and runs ./check for PROP (and extras) against
 # the patched sources (scratch copy via VERIF_REPO).  Appends results to /var/tmp/seedlog/<PROP>_<X>.log
 prop="$1"; x="$2"; shift 2
-src=/tmp/seed/$prop/SEEDED
+src=${SEEDBASE:-/tmp/seed}/$prop/SEEDED
 mkdir -p /var/tmp/seedlog
-log=/var/tmp/seedlog/${prop}_${x}.log
+log=/var/tmp/seedlog/${SEEDTAG:-}${prop}_${x}.log
 : > $log
 /verif/tools/verify_seed.sh $src/patch_$x.diff $src/demo_$x.py >> $log 2>&1
 for p in $prop "$@"; do
